@@ -72,9 +72,6 @@ func (p *process) Invoke(msgs []Envelope) {
 		// If we recovered, we buffer up all the messages that we could not process
 		// so we can retry them on the next restart.
 		if v := recover(); v != nil {
-			p.context.message = Stopped{}
-			applyMiddleware(p.context.receiver.Receive, p.Opts.Middleware...)(p.context)
-
 			p.mbuffer = make([]Envelope, nmsg-nproc)
 			for i := 0; i < nmsg-nproc; i++ {
 				p.mbuffer[i] = msgs[i+nproc]
@@ -123,8 +120,6 @@ func (p *process) Start() {
 	p.context.receiver = recv
 	defer func() {
 		if v := recover(); v != nil {
-			p.context.message = Stopped{}
-			applyMiddleware(p.context.receiver.Receive, p.Opts.Middleware...)(p.context)
 			p.tryRestart(v)
 		}
 	}()
@@ -156,6 +151,7 @@ func (p *process) tryRestart(v any) {
 	// back up. NOTE: not sure if that is the best option. What if that
 	// node never comes back up again?
 	if msg, ok := v.(*InternalError); ok {
+		p.stopReceiver()
 		slog.Error(msg.From, "err", msg.Err)
 		time.Sleep(p.Opts.RestartDelay)
 		p.Start()
@@ -173,6 +169,7 @@ func (p *process) tryRestart(v any) {
 		return
 	}
 
+	p.stopReceiver()
 	p.restarts++
 	// Restart the process after its restartDelay
 	p.context.engine.BroadcastEvent(ActorRestartedEvent{
@@ -184,6 +181,13 @@ func (p *process) tryRestart(v any) {
 	})
 	time.Sleep(p.Opts.RestartDelay)
 	p.Start()
+}
+
+// stopReceiver tells the receiver that failed that it is stopped, before a
+// new one is produced. When the restart budget is exhausted cleanup does that.
+func (p *process) stopReceiver() {
+	p.context.message = Stopped{}
+	applyMiddleware(p.context.receiver.Receive, p.Opts.Middleware...)(p.context)
 }
 
 func (p *process) cleanup(cancel context.CancelFunc) {
